@@ -268,3 +268,113 @@ Definition simple_filter_lane (p1 p0 q0 q1 thresh : Z) : Z * Z :=
   let a1 := if mask then a1 else 0 in
   let a2 := if mask then a2 else 0 in
   (clip8 (add16 p0 a2), clip8 (sub16 q0 a1)).
+
+(** * Forward DCT (fTransform; fTransformSSE2/AVX2)
+    The assembly widens the byte differences to 32-bit lanes; only the operands
+    of [PMADDWD] are packed (with signed saturation, [PACKSSDW]) to 16 bits, and
+    the result is packed to int16 with saturation where Go truncates. *)
+Definition sat16 (x : Z) : Z := clampz (-32768) 32767 x.
+Definition pmadd (x0 y0 x1 y1 : Z) : Z := wrap32 (x0 * y0 + x1 * y1).   (* one 32-bit lane of PMADDWD *)
+Definition sra32 (a n : Z) : Z := a / 2 ^ n.                             (* PSRAD *)
+
+Definition frow (q : Q) : Q :=
+  let '(d0, d1, d2, d3) := q in
+  let a0 := d0 + d3 in let a1 := d1 + d2 in let a2 := d1 - d2 in let a3 := d0 - d3 in
+  ((a0 + a1) * 8, (a2 * 2217 + a3 * 5352 + 1812) / 512, (a0 - a1) * 8, (a3 * 2217 - a2 * 5352 + 937) / 512).
+
+Definition fcol (q : Q) : Q :=
+  let '(t0, t1, t2, t3) := q in
+  let a0 := t0 + t3 in let a1 := t1 + t2 in let a2 := t1 - t2 in let a3 := t0 - t3 in
+  (wrap16 ((a0 + a1 + 7) / 16),
+   wrap16 ((a2 * 2217 + a3 * 5352 + 12000) / 65536 + (if a3 =? 0 then 0 else 1)),
+   wrap16 ((a0 - a1 + 7) / 16),
+   wrap16 ((a3 * 2217 - a2 * 5352 + 51000) / 65536)).
+
+Definition fdct_core (d : M) : M := transpose (mapM fcol (transpose (mapM frow d))).
+
+(** fTransform(src, ref, out): the 16 coefficients in raster order. *)
+Definition ftransform (src ref : list Z) : Res (list Z) :=
+  s <- blk16 src ;; r <- blk16 ref ;; Ok (listM (fdct_core (map2M Z.sub s r))).
+
+Definition l_frow (q : Q) : Q :=
+  let '(d0, d1, d2, d3) := q in
+  let a0 := wrap32 (d0 + d3) in let a1 := wrap32 (d1 + d2) in
+  let a2 := wrap32 (d1 - d2) in let a3 := wrap32 (d0 - d3) in
+  let s2 := sat16 a2 in let s3 := sat16 a3 in
+  (wrap32 (wrap32 (a0 + a1) * 8),
+   sra32 (wrap32 (pmadd s2 2217 s3 5352 + 1812)) 9,
+   wrap32 (wrap32 (a0 - a1) * 8),
+   sra32 (wrap32 (pmadd s3 2217 s2 (-5352) + 937)) 9).
+
+Definition l_fcol (q : Q) : Q :=
+  let '(t0, t1, t2, t3) := q in
+  let a0 := wrap32 (t0 + t3) in let a1 := wrap32 (t1 + t2) in
+  let a2 := wrap32 (t1 - t2) in let a3 := wrap32 (t0 - t3) in
+  let s2 := sat16 a2 in let s3 := sat16 a3 in
+  (sat16 (sra32 (wrap32 (wrap32 (a0 + a1) + 7)) 4),
+   sat16 (wrap32 (sra32 (wrap32 (pmadd s2 2217 s3 5352 + 12000)) 16 + (if a3 =? 0 then 0 else 1))),
+   sat16 (sra32 (wrap32 (wrap32 (a0 - a1) + 7)) 4),
+   sat16 (sra32 (wrap32 (pmadd s3 2217 s2 (-5352) + 51000)) 16)).
+
+Definition l_fdct_core (d : M) : M := transpose (mapM l_fcol (transpose (mapM l_frow d))).
+
+(** The byte differences are formed in 16-bit lanes (PSUBW on zero-extended bytes). *)
+Definition lane32_fdct (src ref : list Z) : Res (list Z) :=
+  s <- blk16 src ;; r <- blk16 ref ;; Ok (listM (l_fdct_core (map2M sub16 s r))).
+
+(** * YUV -> RGB of the fancy upsampler (YUVToRGB; yuvPackedToNRGBABatchSSE2/AVX2)
+    Go: table-free formula with the clip table; assembly: PMADDWD products in
+    32-bit lanes, PSRAD, saturating packs.  kBCb = 33050 does not fit an int16
+    lane: the assembly uses 16525 and >> 7. *)
+Definition clip_yuv (v : Z) : Z := if v <? 0 then 0 else if 16383 <? v then 255 else clip8 (v / 64).
+Definition yuv_r (y v : Z) : Z := clip_yuv ((y * 19077) / 256 + (v * 26149) / 256 - 14234).
+Definition yuv_g (y u v : Z) : Z := clip_yuv ((y * 19077) / 256 - (u * 6419) / 256 - (v * 13320) / 256 + 8708).
+Definition yuv_b (y u : Z) : Z := clip_yuv ((y * 19077) / 256 + (u * 33050) / 256 - 17685).
+
+Definition pack_u8 (x : Z) : Z := clip8 (sat16 x).  (* PACKSSDW then PACKUSWB *)
+Definition l_yuv_r (y v : Z) : Z :=
+  pack_u8 (sra32 (wrap32 (wrap32 (sra32 (pmadd y 19077 0 0) 8 + sra32 (pmadd v 26149 0 0) 8) - 14234)) 6).
+Definition l_yuv_g (y u v : Z) : Z :=
+  pack_u8 (sra32 (wrap32 (wrap32 (wrap32 (sra32 (pmadd y 19077 0 0) 8 - sra32 (pmadd u 6419 0 0) 8)
+                                          - sra32 (pmadd v 13320 0 0) 8) + 8708)) 6).
+Definition l_yuv_b (y u : Z) : Z :=
+  pack_u8 (sra32 (wrap32 (wrap32 (sra32 (pmadd y 19077 0 0) 8 + sra32 (pmadd u 16525 0 0) 7) - 17685)) 6).
+
+(** * Hadamard-domain distortion (tTransform / tDisto4x4Go; tDisto4x4SSE2/AVX2)
+    Same butterfly as the forward WHT in both passes, no shift; then
+    sum of weight * |coefficient|; the distortion is |sum_b - sum_a| >> 5. *)
+Definition hadamard (m : M) : M := transpose (mapM fwht_b (transpose (mapM fwht_b m))).
+Definition l_hadamard (m : M) : M := transpose (mapM l_fwht_b (transpose (mapM l_fwht_b m))).
+Definition wsum (w h : list Z) : Z :=
+  fold_right Z.add 0 (map (fun wh => fst wh * Z.abs (snd wh)) (combine w h)).
+Definition abs16 (x : Z) : Z := wrap16 (Z.abs x).    (* (x ^ (x>>15)) - (x>>15) in a 16-bit lane *)
+Definition l_wsum (w h : list Z) : Z :=
+  fold_right (fun v acc => wrap32 (v + acc)) 0 (map (fun wh => fst wh * abs16 (snd wh)) (combine w h)).
+Definition tdisto (w a b : list Z) : Res Z :=
+  x <- blk16 a ;; y <- blk16 b ;;
+  Ok (Z.abs (wsum w (listM (hadamard y)) - wsum w (listM (hadamard x))) / 32).
+Definition l_tdisto (w a b : list Z) : Res Z :=
+  x <- blk16 a ;; y <- blk16 b ;;
+  Ok (Z.abs (l_wsum w (listM (l_hadamard y)) - l_wsum w (listM (l_hadamard x))) / 32).
+
+(** * AC quantisation of one coefficient (quantizeCoeffsGo; quantizeACSSE2/AVX2)
+    Go: uint32 arithmetic (wraps mod 2^32); assembly: |x| and + sharpen in 16-bit
+    lanes, PMULUDQ 32x32->64, + bias and >> 17 in 64 bits, low dword compared
+    (signed) with 2047, PACKSSDW, sign restored in the 16-bit lane. *)
+Definition quant_go (x sharpen iq bias : Z) : Z :=
+  let sign := if x <? 0 then -1 else 1 in
+  let v := Z.abs x + sharpen in
+  let v := if v <? 0 then 0 else v in
+  let c := (((v mod 4294967296) * (iq mod 4294967296) + bias mod 4294967296) mod 4294967296) / 131072 in
+  let c := if 2047 <? c then 2047 else c in
+  wrap16 (sign * c).
+
+Definition quant_lane (x sharpen iq bias : Z) : Z :=
+  let a := if x <? 0 then wrap16 (- x) else x in
+  let v := Z.max (add16 a sharpen) 0 in
+  let p := ((v * (iq mod 4294967296) + bias) mod 18446744073709551616) / 131072 in
+  let c32 := wrap32 (p mod 4294967296) in
+  let c := if 2047 <? c32 then 2047 else c32 in
+  let c := sat16 c in
+  if x <? 0 then wrap16 (- c) else c.
+
